@@ -98,6 +98,8 @@ def generate(run_seed, index, tier):
     use_wipe = cfg_r.random() < 0.3
     use_reject = cfg_r.random() < 0.2
     use_clone = cfg_r.random() < 0.25
+    if use_clone and cfg_r.random() < 0.5:
+        two = True
     p_append = cfg_r.choice([0.3, 0.5, 0.7, 0.85])
     qweights = [(k, cfg_r.choice([0, 1, 1, 2, 4])) for k in QUERY_KINDS]
     if sum(w for _, w in qweights) == 0:
@@ -168,8 +170,10 @@ def generate(run_seed, index, tier):
             ops.append({'op': 'wipe'})
         if use_clone and prog_r.random() < 0.12:
             ops.append({'op': 'clone', 'c': c, 'how': prog_r.choice(['deepcopy', 'pickle'])})
+        if use_clone and two and prog_r.random() < 0.12:
+            ops.append({'op': 'fork', 'c': c})
         if use_reject and prog_r.random() < 0.1:
-            ops.append({'op': 'reject', 'c': c, 'kind': prog_r.choice(['neg', 'same']), 'g': prog_r.choice(SINGLE + TWO)})
+            ops.append({'op': 'reject', 'c': c, 'kind': prog_r.choice(['neg', 'same', 'same_high']), 'g': prog_r.choice(SINGLE + TWO)})
         o = mk_append(c) if ch == 'a' else mk_query(c)
         if fault_rate and flt_r.random() < fault_rate:
             o['fault'] = {'kind': flt_r.choice(fault_kinds), 'frac': round(flt_r.random(), 4)}
@@ -562,6 +566,10 @@ class Sim:
         g = op['g']
         if op['kind'] == 'neg':
             q = [-1] if g in SINGLE else [0, -1]
+        elif op['kind'] == 'same_high':
+            if g in SINGLE:
+                g = 'CZ'
+            q = [n + 2, n + 2]
         else:
             if g in SINGLE:
                 g = 'CX'
@@ -656,6 +664,20 @@ class Sim:
             if self.last_kind.get(c) == 'q':
                 self.seen_q_then_a[c] = True
             self.last_kind[c] = 'a'
+            return
+        if kind == 'fork':
+            # deep-copy the circuit into the other slot and keep using BOTH objects: later appends to one must not leak into the other
+            c2 = 1 - c
+            try:
+                self.circ[c2] = copy.deepcopy(circ)
+            except Exception as e:
+                raise Violation('unexpected_exception', 'copy', f'{type(e).__name__}: {e}')
+            self.cands[c2] = [Cand(x.hist) for x in self.cands[c]]
+            self.unspecified.discard(c2)
+            self.last_kind[c2] = self.last_kind.get(c)
+            self.bump('forks')
+            self.log.add('fork', c, c2)
+            self.shape.append('f')
             return
         if kind == 'clone':
             # continue with a deep copy (or a pickle round trip) of the circuit object: the copy must carry the whole history
